@@ -141,6 +141,8 @@ class World(object):
         elif k == "l":
             lst = self.real(path)
             n = len(lst)
+            if node["elem"][0] == "obj":
+                n = len(lst.backing_arr)       # the objects the user put in (a random size only hides a suffix of them)
             while len(node["elems"]) > n:
                 node["elems"].pop()
             while len(node["elems"]) < n:
